@@ -46,6 +46,12 @@ REFINED = ["Repr::reduce", "Repr::reduce_with_hint", "Repr::reduce2",
            "allocation panic of a pow step, history invariant and values carry over (runG_cases, history_invariant_guarded, history_values_guarded); "
            "Relaxed likewise and Relaxed = RBig whenever both return (relaxed_pow_checked_exact, relaxed_pow_checked_equals_rbig); the panic is never spurious: on EVERY branch of "
            "the guard (64-bit words) a component of the exact power has at least 2^62 bits (pow_panics_only_beyond_memory, rbig_pow_exact_or_beyond_memory)",
+           "round 7 (Props/C04Pow section 7): BELOW memory the guard of pow is silent (64-bit words) — components of the exact power under 2^62 bits => "
+           "pow returns pow x n, no panic alternative (pow_checked_ok_below_memory, operand-size criterion a*n <= 2^62: pow_checked_ok_of_bits, "
+           "rbig_pow_exact_below_memory); the guarded history runG (op qp.prog, the real code) IS the unguarded run (older op prog) whenever every pow step of "
+           "the plain run stays below 2^62 bits (runG_eq_run_below_memory) and then stops only with DivideByZero (history_values_guarded_below_memory); "
+           "Relaxed = RBig for pow WITHOUT the 'whenever both return' hypothesis: below memory both return, same value, canonicalize(Relaxed result) = stored RBig pair "
+           "(relaxed_pow_equals_rbig_below_memory; helper reduced_components_le in Proofs/Ratio/PowSmall)",
            "histories: Relaxed = RBig over whole programs (history_relaxed_equals_rbig, history_canonicalize_equals_rbig), reduce2 invariant over "
            "Relaxed-only histories (history_relaxed_reduce2_invariant)"]
 FRONTIER = ["dashu-int kernels used by the rational layer are taken at their contracts, and EVERY one of them is now linked by theorem (Props/C04Link, "
@@ -58,7 +64,8 @@ FRONTIER = ["dashu-int kernels used by the rational layer are taken at their con
             "pow results between ~10^6 bits and the MAX_CAPACITY guard (a component 2^s with 10^6 < exp*s < 2^64 - 64, or an odd part > 1 with an exponent "
             "below its up-front buffer guard): powChecked states the exact power and Props/C04Pow covers these inputs, but neither side can be EXECUTED "
             "(the real code would really allocate up to 2^61 bytes / compute for hours; the outcome depends on the allocator) — kept, same reason as C01's entry; "
-            "the older `prog` op still runs the unguarded pow (its generator keeps exponents small); `qp.prog` runs the guarded one",
+            "the older `prog` op still runs the unguarded pow (its generator keeps exponents small); `qp.prog` runs the guarded one — round 7: proved to be the "
+            "same function on every program whose pow results stay below 2^62 bits (runG_eq_run_below_memory), so `prog` is no longer a separate trusted model there",
 ]
 RULE = ("operands n/d built from size classes {tiny, 1 word, 2 words (inline boundary), 3-6 words, 10-40 words} x bit patterns "
         "x signs, then related to each other the way the code branches: denominators coprime (g = 1 shortcut) or sharing a "
@@ -758,7 +765,8 @@ LEVEL_TEXT = ("Machine-checked Lean 4 theorems, for all integers (no size bound)
               "DivideByZero exactly on zero divisors, Relaxed operations return the same values and reduce2 strips exactly the "
               "common power of two; history theorems over register programs (invariants, values, Relaxed = RBig over whole histories, "
               "reduce2 fixed point); sign corners of pow/inv; predicates; pow with the allocation panics of the integer powers under it "
-              "(exact reduced result, or the documented allocation panic and then a component of the exact power has at least 2^62 bits; the guard is C01's proved "
+              "(exact reduced result, or the documented allocation panic and then a component of the exact power has at least 2^62 bits — conversely below 2^62 bits no panic, "
+              "guarded histories = unguarded histories, Relaxed = RBig with both returning; the guard is C01's proved "
               "panic class, composed by value with C01's mirrored kernels — Props/C04Pow). Tie A: all 24 operator macro bodies of rational/src/{add,mul,div}.rs, "
               "their 48 invocations and 22 Repr-level function bodies (reductions, rounding, inverse, sign, powers, constructors incl. the const Euclid loop) are "
               "regenerated from /repo on every run and proved equal to the model functions for all inputs (Props/C04Gen). Tie B: differential execution (numerator()/denominator() as stored, all ownership/assign call forms, "
